@@ -46,11 +46,11 @@ def snap(obj, depth=0, seen=None):
 
 
 def gen(rng: random.Random, tier: str):
-    reps = {"quick": 1, "thorough": 25}[tier]
+    reps = {"quick": 1, "thorough": 80}[tier]
     for _ in range(reps):
         for name in COMPS:
             yield {"comp": name, "seed": rng.randrange(10**6), "steps": [rng.choice(["retrain", "skip", "retrain", "skip"]) for _ in range(rng.randint(2, 3))]}
-    for _ in range({"quick": 12, "thorough": 300}[tier]):
+    for _ in range({"quick": 12, "thorough": 1500}[tier]):
         yield {"comp": "pipeline", "seed": rng.randrange(10**6), "steps": []}
 
 def _data(rnd, u0, nu, i0, ni):
@@ -136,4 +136,4 @@ def run(case: dict, lean: Lean) -> Outcome:
 SPEC = CheckSpec(
     pid="C18", theorems=[f"LK.Train.C18_Train_{n}" for n in ["skip_is_identity", "retrain_eq_fresh", "trained_once", "seeds_distinct"]], correspondence_ops=["c18.train_all", "c18.guard"],
     nontrivial_rule="distinct (component, training sequence) reaching ≥1 of: each trainable component, skip / retrain steps, pipeline training",
-    budgets={"quick": 14, "thorough": 350}, gen=gen, run=run, shrink=None)
+    budgets={"quick": 14, "thorough": 2600}, gen=gen, run=run, shrink=None)
